@@ -225,13 +225,15 @@ def run(ctx):
     cfg = "ListSeq_quick.cfg" if ctx.tier == "quick" else "ListSeq_thorough.cfg"
     g, res = objcheck.tlc_graph(ctx, "MC_ListSeq.tla", cfg)
     walks = (300, 40) if ctx.tier == "quick" else (5000, 60)
+    # the mixed-class variants replay the quick scope in both tiers (the thorough scope is replayed on plain str elements)
+    gm = g if ctx.tier == "quick" else objcheck.tlc_graph(ctx, "MC_ListSeq.tla", "ListSeq_quick.cfg")[0]
     for cls in CLASSES:
         objcheck.replay_cover(ctx, g, [tok(INIT)], exe, cls, [cls], keyfn, walks=walks,
                               pairs=(40000 if ctx.tier == "quick" else 600000))
         # the same transitions with elements and probes of two DIFFERENT comparison-compatible classes (a url is a str and
         # compares by its text): stored urls looked up with plain strs, and the other way round
         for mix in MIXED:
-            objcheck.replay_cover(ctx, g, [tok(INIT)], exe, cls + "/" + mix, [cls + ":" + mix], keyfn,
+            objcheck.replay_cover(ctx, gm, [tok(INIT)], exe, cls + "/" + mix, [cls + ":" + mix], keyfn,
                                   walks=(walks[0] // 4, walks[1]), pairs=(10000 if ctx.tier == "quick" else 100000))
     trace_validation(ctx, exe)
     ctx.cov["exhaustive"] = True
